@@ -62,7 +62,9 @@
      IoRCrel end of the `with`                              release requests_lock
              (after the loop the release is the step taken at IoRCloop with no item left)
      after_read: poll's `for fd in w`: map.get(fd) is None after a close -> skipped
-     IoHW0   handle_write 95-113: choose and run the flush through _flush_exception:
+     IoHW0   handle_write 95-116: choose the flush (_flush_some_if_lockable in both branches: the
+             I/O thread only flushes under outbuf_lock, which the model does not keep) and run it
+             through _flush_exception:
              OSError -> 129                                 W will_close := True     [DFlushErrIO]
              disconnect errno inside send(do_close=True) -> handle_close     [DHandleClose]
      IoHW1   115                                            R close_when_flushed
